@@ -145,7 +145,7 @@ def paramTypes : List (String × TypeEntry) := [
   ("growing.full_rank.svd_max_jac_cond", ⟨.float, true, .flt 0x3FF0000000000000, .none⟩),  -- ('float', True, 1.0, None)
   ("growing.perturb_trust_region_step", ⟨.bool, false, .none, .none⟩),  -- ('bool', False, None, None)
   ("dykstra.d_tol", ⟨.float, false, .flt 0x0000000000000000, .none⟩),  -- ('float', False, 0.0, None)
-  ("dykstra.max_iters", ⟨.int, false, .int 0, .none⟩),  -- ('int', False, 0, None)
+  ("dykstra.max_iters", ⟨.int, false, .int 1, .none⟩),  -- ('int', False, 1, None)
   ("matrix_rank.r_tol", ⟨.float, false, .flt 0x0000000000000000, .none⟩),  -- ('float', False, 0.0, None)
   ("func_tol.criticality_measure", ⟨.float, false, .flt 0x0000000000000000, .flt 0x3FF0000000000000⟩),  -- ('float', False, 0.0, 1.0)
   ("func_tol.tr_step", ⟨.float, false, .flt 0x0000000000000000, .flt 0x3FF0000000000000⟩),  -- ('float', False, 0.0, 1.0)
